@@ -152,7 +152,8 @@ def _chunk(pid, tier, base_seed, idxs, wall_per_run, selfcheck):
         if res["kind"] == "error":
             agg["errors"].append({"i": i, "seed": seed, "params": params, "detail": res["detail"]})
         elif not res["ok"]:
-            if len(agg["failures"]) < 8:
+            first_of_class = not any(f["cls"] == res["cls"] and f.get("sig") == res["sig"] and f["recorded"] for f in agg["failures"])
+            if len(agg["failures"]) < 8 or first_of_class:      # every failure class of a chunk keeps one replayable witness
                 agg["failures"].append({"i": i, "seed": seed, "params": params, "cls": res["cls"], "sig": res["sig"],
                                         "detail": res["detail"], "digest": res["digest"], "recorded": res["recorded"],
                                         "kind": res["kind"], "report": res.get("report")})
